@@ -9,6 +9,7 @@
   The theorems below are the laws of that reference the property names.
 -/
 import SonicModel.Spec.Typed
+import SonicModel.Lemmas.DeMain
 namespace Sonic.Thm.C04
 open Sonic Spec
 
@@ -71,7 +72,66 @@ theorem unknown_field_ignored (buf : Buf) : ∀ (f : Nat) (fields : List Field) 
       simp only [decodeFields]
       rw [lookupField_append_other name u x ms hne, ih rest ms u x (fun fl hfl => h fl (by simp [hfl]))]
 
+/-! ### the typed deserializer of src/serde/de.rs (model: Impl/De.lean, compared with the implementation on every case of
+    the check) against the reference semantics -/
+
+/-- **on every strictly well-formed text, typed deserialization answers what the reference semantics says about the tree the
+    text denotes** — accept / reject and the value — for every type of the proved family (`De.cov`: bool, integers up to 64
+    bits, f64, char, String, unit, Option, newtype / tuple / unit structs, tuples and fixed-size arrays, `Vec`, maps with string
+    keys, byte buffers, nested in any way), whenever the model terminates at its canonical fuel (`FUEL` answers are reported by
+    the check as a broken tie).  The reference's fuel only bounds its recursion: the statement holds at every sufficient fuel.
+    Partial: structs, enums, 128-bit integers, `&str` and non-string map keys are in the model and compared, not in this proof -/
+theorem typed_deserializer_matches_reference_partial (buf : Buf) (ty : Ty) (hc : De.cov ty = true) (s e : Nat)
+    (h : Spec.document true buf = some (s, e)) (hne : De.deDoc ty buf ≠ .fuel) :
+    ∃ t, docTree false buf = some t ∧ ∃ g0, ∀ g, g0 ≤ g → (De.deDoc ty buf).toOpt = decode buf g ty t :=
+  De.typed_document buf ty hc s e h hne
+
+/-- … value by value, wherever the value stands in a text and whatever follows it: the model of `T::deserialize` started
+    anywhere in the whitespace before the value returns the reference's verdict and stops exactly at the end of the value -/
+theorem typed_value_matches_reference_partial (buf : Buf) (F w e : Nat) (h : Spec.value true F buf w = .ok e) :
+    ∃ t, tree false F buf w = some (t, e) ∧
+      ∀ f ty i, De.cov ty = true → skipWs buf i = w → De.de f ty buf i ≠ .fuel →
+        ∃ g0, ∀ g, g0 ≤ g → De.ofOpt (decode buf g ty t) e = De.de f ty buf i := by
+  obtain ⟨t, ht, hok⟩ := (De.typed_of_strict buf F).1 w e h
+  exact ⟨t, ht, hok.facts⟩
+
+/-- `parse_number` classifies a number token as `Unsigned` / `Signed` exactly when the specification's reading of the token
+    is an integer literal within u64 / i64 (after anything that cannot continue a number: delimiter, whitespace, end of input) -/
+theorem number_token_classification (buf : Buf) (s e : Nat) (c : UInt8) (hb : buf[s]? = some c) (h : Spec.number buf s = some e) :
+    (De.numTok buf c (s + 1)).2.2 = e ∧ (De.numTok buf c (s + 1)).1 ≠ .invalid ∧
+    (((decOf buf s e).isInt = true ∧ (decOf buf s e).neg = false ∧ (decOf buf s e).mant < 2 ^ 64 →
+        (De.numTok buf c (s + 1)).1 = .unsigned (decOf buf s e).mant) ∧
+     ((decOf buf s e).isInt = true ∧ (decOf buf s e).neg = true ∧ 0 < (decOf buf s e).mant ∧ (decOf buf s e).mant ≤ 2 ^ 63 →
+        (De.numTok buf c (s + 1)).1 = .signed (-((decOf buf s e).mant : Int)))) := by
+  obtain ⟨_, t2, t3, tcl⟩ := De.tok_class buf s e c hb h
+  refine ⟨t2, t3, ?_, ?_⟩
+  · intro hh
+    rcases tcl with ⟨_, _, _, _, hp⟩ | ⟨_, hn, _, _, _, _⟩ | ⟨hA, _, _, _⟩
+    · exact hp
+    · rw [hh.2.1] at hn; cases hn
+    · exact absurd hh hA
+  · intro hh
+    rcases tcl with ⟨_, hn, _, _, _⟩ | ⟨_, _, _, _, _, hp⟩ | ⟨_, hB, _, _⟩
+    · rw [hh.2.1] at hn; cases hn
+    · exact hp
+    · exact absurd hh hB
+
 /-! non-vacuity -/
+/-- `[-5, "a\n", [true,null], {"k":[]}]` as `(i8, String, Vec<Option<bool>>, BTreeMap<String, Vec<u8>>)` -/
+def exDoc : Buf := #[91, 45, 53, 44, 32, 34, 97, 92, 110, 34, 44, 32, 91, 116, 114, 117, 101, 44, 110, 117, 108, 108, 93, 44, 32, 123, 34, 107, 34, 58, 91, 93, 125, 93]
+def exTy : Ty := .tuple [.int 8 true, .str, .seq (.opt .bool), .map .str (.seq (.int 8 false))]
+example : De.cov exTy = true := by decide
+example : Spec.document true exDoc = some (0, 34) := by decide +kernel
+/-- both give the value whose serde_json text is `[-5,"a\\n",[true,null],{"k":[]}]` -/
+example : (De.deDoc exTy exDoc).toOpt.map Val.render =
+    some [91, 45, 53, 44, 34, 97, 92, 110, 34, 44, 91, 116, 114, 117, 101, 44, 110, 117, 108, 108, 93, 44, 123, 34, 107, 34, 58, 91, 93, 125, 93] := by
+  decide +kernel
+example : (decodeDoc exTy exDoc).map Val.render =
+    some [91, 45, 53, 44, 34, 97, 92, 110, 34, 44, 91, 116, 114, 117, 101, 44, 110, 117, 108, 108, 93, 44, 123, 34, 107, 34, 58, 91, 93, 125, 93] := by
+  decide +kernel
+/-- the same text as `(u8, String, Vec<Option<bool>>, …)`: `-5` is not a u8 — rejected by model and reference alike -/
+example : (De.deDoc (.tuple [.int 8 false, .str, .seq (.opt .bool), .map .str (.seq (.int 8 false))]) exDoc).toOpt.map Val.render = none := by decide +kernel
+
 example : decodeInt 8 true ⟨true, 128, 0, true⟩ = some (-128) := by decide
 example : decodeInt 8 true ⟨true, 0, 0, true⟩ = none := by decide
 example : decodeInt 128 false ⟨false, 340282366920938463463374607431768211455, 0, true⟩ = some 340282366920938463463374607431768211455 := by decide
